@@ -54,6 +54,9 @@ CHECKS = {
             'grid points (8 points x 3 shifts) are concrete runs against the exact oracle.', 'Quick tier: families only for groups with <= 16 operations and four larger sample groups.', '6/C15'),
     'C14': ('differential symbolic execution: tools.f and laue.f run in one program on the same symbolic inputs, joint path exploration, result expressions compared by z3/cvc5 (QF_NRA / QF_LIA); genhkl_* and reduce_cell compared on a concrete sample (enumeration)',
             'Bounded model checking of 41 function pairs over the input spaces of C01-C03/C09/C13 (exact reals, all paths up to the stated budgets); the 2*pi convention is applied to B-valued outputs and B/g-valued inputs.', 'Known finding: ubi_to_u_and_eps (strain) differs between the modules (see C13).', '6/C14'),
+    'C12': ('symbolic execution of permutations/rotations (exact tables in Q(sqrt 3) through the real form_b_mat) and of Umis on two unit-quaternion rotations; group axioms, pairing identity for a symbolic conforming cell and Umis invariance identities decided by normal form + z3/cvc5 (QF_NRA)',
+            'Bounded model checking over exact reals: all 7 crystal systems, all pairs of operators, all pairs of proper rotations, all conforming cells. The obligation that the arccos argument lies in [-1,1] is an 8-variable inequality that the solvers leave inconclusive for most operators (listed in the evidence).',
+            'ndarray.clip is modelled as the identity under that obligation.', '6/C12'),
 }
 NA_REASON = {}
 
